@@ -329,3 +329,12 @@ Theorem fp_forward_budget : forall S f, cfg_inv (f_cfg f) = true -> forall trans
   fp_forward S f trans join cmp false max <> Err EMaxSteps.
 Proof. exact FpILProofs.fp_forward_budget. Qed.
 Print Assumptions fp_forward_budget.
+
+Theorem fp_backward_terminates : forall S f, cfg_inv (f_cfg f) = true -> forall trans join cmp (rank : S -> nat) h d fuel e b,
+  (forall s, rank s <= h) -> (forall a b, cmp a b = Some Gt -> rank b < rank a) ->
+  (forall l, valid_loc f l = true -> length (pred_f f l) <= d) ->
+  1 + d * (length (locations f) * Datatypes.S h) < fuel ->
+  g_exit (f_cfg f) = Some e -> f_block f e = Ok b ->
+  run_nobudget floc S floc_eqb (forward f) (backward f) trans join cmp fuel false [] [block_last_loc b] <> OutOfFuel.
+Proof. exact FpILProofs.fp_backward_terminates. Qed.
+Print Assumptions fp_backward_terminates.
